@@ -1,7 +1,15 @@
 package props
 
 import (
+	"context"
+	"fmt"
+	"os"
+	"os/exec"
+	"path/filepath"
+	"strings"
+	"sync"
 	"sync/atomic"
+	"time"
 
 	eval "github.com/onheap/eval"
 
@@ -140,7 +148,8 @@ func c15(r *rep.Run) {
 		{Name: "名前", Ty: X}, {Name: "älter", Ty: X}, {Name: "_u", Ty: X}, {Name: "étudiant.actif", Ty: X}}
 	bindings := []c15fetch{{int64(3), int64(2)}, {true, false}, {int64(0), int64(5)}, {"s", int64(1)}}
 	var renderings, nontrivial, evals int64
-	done := r.ParallelFor(len(progs), func(w, i int) {
+	var body func(w, i int)
+	body = func(w, i int) {
 		t := progs[i]
 		if t.K != term.KOp && t.K != term.KIf {
 			return
@@ -208,9 +217,155 @@ func c15(r *rep.Run) {
 		if i%9973 == 0 {
 			r.Sample(12, map[string]interface{}{"prefix": psrc, "infix_minimal": Infix(t, 0), "infix_full": Infix(t, 1)})
 		}
+	}
+	done := r.ParallelFor(len(progs), func(w, i int) {
+		// Dump / DumpTable of what Compile returned run unfenced inside body: a
+		// panic raised by the library there is a malformed program
+		if pn, site := drive.Fence(func() { body(w, i) }); pn != nil {
+			if site == "?" {
+				panic(pn) // the harness's own fault
+			}
+			r.Violate("panic", site, sprintf("compiling and dumping %s (prefix and infix renderings) panics in the library: %v (at %s)", progs[i].Src(), pn, site), map[string]interface{}{"prefix": progs[i].Src()})
+		}
 	})
+	r.External(func() { c15Race(r) })
 	r.Cov["trees_completed"] = done
 	r.Cov["renderings"] = renderings
 	r.Add(int64(len(progs)), renderings+evals, renderings, renderings+evals, nontrivial)
 	r.Finish()
+}
+
+// C15FreeRun: real goroutines compile infix renderings concurrently on one
+// shared config (free-running, built with -race by the caller): every result
+// must be the tree of the prefix form, compiled sequentially beforehand. Infix
+// parsing that keeps work state outside the call shows up as a data race or
+// as a wrong tree.
+func C15FreeRun(iters int) (string, error) {
+	mk := func(infix bool) *eval.Config {
+		cfg := eval.NewConfig()
+		for i, n := range []string{"a", "b"} {
+			cfg.VariableKeyMap[n] = eval.VariableKey(i + 1)
+		}
+		cfg.OperatorMap["f"] = func(_ *eval.Ctx, p []eval.Value) (eval.Value, error) { return p[0], nil }
+		cfg.OperatorMap["g"] = func(_ *eval.Ctx, p []eval.Value) (eval.Value, error) { return p[len(p)-1], nil }
+		cfg.OperatorMap["h"] = func(_ *eval.Ctx, p []eval.Value) (eval.Value, error) { return int64(7), nil }
+		if infix {
+			cfg.CompileOptions[eval.InfixNotation] = true
+		}
+		return cfg
+	}
+	cfgP, cfgI := mk(false), mk(true)
+	var srcs, wants []string
+	g := term.NewGen(c15Alphabet(true, c15ClassOps))
+	for _, t := range g.UpTo([]term.Ty{X}, 4) {
+		if t.K != term.KOp && t.K != term.KIf {
+			continue
+		}
+		pe, err := eval.Compile(cfgP, t.Src())
+		if err != nil {
+			continue
+		}
+		for style := 0; style < 3; style += 2 {
+			srcs = append(srcs, Infix(t, style))
+			wants = append(wants, eval.Dump(pe))
+		}
+	}
+	// a few deep ones (long operator and output stacks)
+	deep := "a"
+	pdeep := "a"
+	for i := 0; i < 12; i++ {
+		deep = "(" + deep + " + 1) * (b - " + fmt.Sprint(i) + ")"
+		pdeep = "(* (+ " + pdeep + " 1) (- b " + fmt.Sprint(i) + "))"
+	}
+	if pe, err := eval.Compile(cfgP, pdeep); err == nil {
+		for k := 0; k < 8; k++ {
+			srcs = append(srcs, deep)
+			wants = append(wants, eval.Dump(pe))
+		}
+	}
+	const G = 8
+	var wg sync.WaitGroup
+	errs := make(chan error, G)
+	for k := 0; k < G; k++ {
+		k := k
+		wg.Add(1)
+		go func() {
+			defer wg.Done()
+			for it := 0; it < iters; it++ {
+				for j := range srcs {
+					i := (j + k*len(srcs)/G) % len(srcs)
+					var ie *eval.Expr
+					var err error
+					func() {
+						defer func() {
+							if r := recover(); r != nil {
+								err = fmt.Errorf("PANIC(%v)", r)
+							}
+						}()
+						ie, err = eval.Compile(cfgI, srcs[i])
+					}()
+					if err != nil {
+						errs <- fmt.Errorf("concurrent Compile of infix %q fails: %v (its prefix form compiles)", srcs[i], err)
+						return
+					}
+					if got := eval.Dump(ie); got != wants[i] {
+						errs <- fmt.Errorf("concurrent Compile of infix %q gives the tree %s, its prefix form gives %s", srcs[i], got, wants[i])
+						return
+					}
+				}
+			}
+		}()
+	}
+	wg.Wait()
+	select {
+	case err := <-errs:
+		return "", err
+	default:
+	}
+	return fmt.Sprintf("race pass: %d goroutines x %d rounds over %d infix sources on one shared config, no race reported, every tree equal to the prefix form's", G, iters, len(srcs)), nil
+}
+
+// c15Race builds the free-running harness with the race detector and runs it.
+func c15Race(r *rep.Run) {
+	bin := filepath.Join(rep.Root, ".bin", sprintf("racepass15.%d", os.Getpid()))
+	defer os.Remove(bin)
+	args := []string{"build", "-race"}
+	if mf := os.Getenv("VERIF_MODFILE"); mf != "" {
+		args = append(args, "-modfile="+mf)
+	}
+	build := exec.Command("go", append(args, "-o", bin, "./cmd/racepass")...)
+	build.Dir = filepath.Join(rep.Root, "mc")
+	build.Env = append(os.Environ(), "CGO_ENABLED=1", "GOFLAGS=-mod=mod", "GOPROXY=off", "GOSUMDB=off", "GOTOOLCHAIN=local")
+	if out, err := build.CombinedOutput(); err != nil {
+		r.Cov["race_pass"] = "not run: race-instrumented build failed: " + firstLines(string(out), 3)
+		return
+	}
+	iters := "3"
+	if r.Thorough() {
+		iters = "30"
+	}
+	limit := 15 * time.Minute
+	if r.Thorough() {
+		limit = 60 * time.Minute
+	}
+	cctx, cancel := context.WithTimeout(context.Background(), limit)
+	defer cancel()
+	cmd := exec.CommandContext(cctx, bin, "C15", iters)
+	cmd.Env = append(os.Environ(), "GORACE=halt_on_error=0 exitcode=66")
+	out, err := cmd.CombinedOutput()
+	text := string(out)
+	if cctx.Err() != nil {
+		r.Violate("race-pass-timeout", "racepass", sprintf("the free-running concurrent harness did not finish within %v", limit), map[string]interface{}{"output": firstLines(text, 40)})
+		return
+	}
+	if strings.Contains(text, "WARNING: DATA RACE") {
+		r.Violate("data-race", firstRaceSite(text), "the Go race detector reports a data race between concurrent compilations of infix sources (the tree an infix source compiles to must not depend on what else is being compiled)", map[string]interface{}{"report": firstLines(text, 60)})
+		r.Cov["race_pass"] = "DATA RACE reported"
+		return
+	}
+	if err != nil {
+		r.Violate("concurrent-infix-compile", "racepass", "free-running concurrent compilation of infix sources: "+firstLines(text, 6), map[string]interface{}{"output": firstLines(text, 60)})
+		return
+	}
+	r.Cov["race_pass"] = strings.TrimSpace(lastLine(text))
 }
